@@ -211,4 +211,10 @@ theorem run_stop_of_reach {maxTicks : Nat} {s s' : St} {st : Stop} (h : Reach se
       · right; left; simp [run, hc]
       · simp only [run, hc, if_false, hs]; exact ih he f
 
+/-- what the caller needs to know about a subroutine stream starting at `t`: entered with any
+state (drum mode off), it plays `T` and arrives at a `FINISH` with all stacks as on entry -/
+def SubPlays (seq : List Nat) (base mj t : Nat) (T : List Tk) : Prop :=
+  ∀ s0 : St, s0.pc = t → s0.drum = false →
+    ∃ s1, Reach seq base mj s0 s1 ∧ Frame s0 s1 ∧ seq[s1.pc]? = some mds_FINISH ∧ s1.out = T.reverse ++ s0.out
+
 end Ctrmml.Codec
